@@ -99,6 +99,8 @@ structure Analysis (α : Type) where
   result : Result α
   cumulative : List α
   window : Nat × Nat
+  /-- `2 (t + r_K)` at every pressure used, the highest included (not returned by the code: the width increments are its successive changes) -/
+  fullWidths : List α
 
 /-- the Kelvin radii that the call computes from the property set it is given -/
 def kelvinRadii (R : α) (a : AdsProps α) (T : α) (q : Request α) (lnp : List α) : List α :=
@@ -113,7 +115,7 @@ def analysis [LinearOrder α] (R c10 c99 : α) (a : AdsProps α) (d : IsoData α
     let kel := kelvinRadii R a d.temperature q (slice q.lnp w)
     match method q.method q.geometry vol (slice q.thick w) kel with
     | none => none
-    | some r => some ⟨r, cumulative r.volumes vol, w⟩
+    | some r => some ⟨r, cumulative r.volumes vol, w, fullWidths (slice q.thick w) kel⟩
 
 /-! ### tabulated thickness curves -/
 
